@@ -234,33 +234,39 @@ def Cmd.isSome : Cmd → Bool
   | _ => true
 
 /-- every handler starts with `if not self.check_host_trust(...): return SecurityError()` -/
-def hostGate (r : Req) (failed : UInt8) (k : Outcome × UInt8) : Outcome × UInt8 :=
-  match r.hostTrusted with
-  | false => (.securityError, failed)
-  | true => k
+def hostGate (r : Req) (k : Outcome) : Outcome :=
+  if r.hostTrusted then k else .securityError
 
-/-- `DebuggedApplication.__call__` followed by the handler it selects (the `if/elif` chain of the
-code, written with pattern matching) -/
-def dispatch (cfg : Config) (failed : UInt8) (r : Req) : Outcome × UInt8 :=
-  match r.debugger with
-  | true =>
+/-- the conjunction that guards `execute_command` in `__call__` (the Host check is inside the handler) -/
+def evalCond (cfg : Config) (r : Req) : Bool :=
+  cfg.evalex && r.cmd.isSome && r.frameKnown && r.secret.isRight
+    && (checkPinTrust cfg.pinOn r.cookie).isYes
+
+/-- what `DebuggedApplication.__call__` answers: the `if/elif` chain of the code followed by the
+handler it selects (`failed` = the failure counter before the request) -/
+def respond (cfg : Config) (failed : UInt8) (r : Req) : Outcome :=
+  if r.debugger then
     match r.cmd, r.hasArg, r.secret.isRight with
-    | .resource, true, _ => (.resource, failed)                       -- get_resource: no gate
+    | .resource, true, _ => .resource                                 -- get_resource: no gate
     | .pinauth, _, true =>                                            -- pin_auth
-      hostGate r failed
-        (let res := pinAuth failed (checkPinTrust cfg.pinOn r.cookie) r.pinRight
-         (.pinauth res.1, res.2))
+      hostGate r (.pinauth (pinAuth failed (checkPinTrust cfg.pinOn r.cookie) r.pinRight).1)
     | .printpin, _, true =>                                           -- log_pin_request
-      hostGate r failed (.printpin (cfg.pinLogging && cfg.pinOn), failed)
-    | cmd, _, sec =>
-      match cfg.evalex && cmd.isSome && r.frameKnown && sec
-          && (checkPinTrust cfg.pinOn r.cookie).isYes with
-      | true => hostGate r failed (.evalRan, failed)                  -- execute_command
-      | false => (.app, failed)
-  | false =>
-    match cfg.evalex && cfg.consoleOn && r.atConsole with
-    | true => hostGate r failed (.console, failed)                    -- display_console
-    | false => (.app, failed)
+      hostGate r (.printpin (cfg.pinLogging && cfg.pinOn))
+    | _, _, _ =>
+      if evalCond cfg r then hostGate r .evalRan                      -- execute_command
+      else .app
+  else if cfg.evalex && cfg.consoleOn && r.atConsole then
+    hostGate r .console                                               -- display_console
+  else .app
+
+/-- the failure counter after the request: only an answered pinauth touches it -/
+def nextCounter (cfg : Config) (failed : UInt8) (r : Req) : UInt8 :=
+  match respond cfg failed r with
+  | .pinauth _ => (pinAuth failed (checkPinTrust cfg.pinOn r.cookie) r.pinRight).2
+  | _ => failed
+
+def dispatch (cfg : Config) (failed : UInt8) (r : Req) : Outcome × UInt8 :=
+  (respond cfg failed r, nextCounter cfg failed r)
 
 /-! ### decoding the generated table (`Gen/Debugger.lean`) -/
 
